@@ -62,6 +62,10 @@
 (***************************************************************************)
 EXTENDS Integers, Sequences, FiniteSets
 
+CONSTANT Sticky     \* TRUE: the design of the code - a source that failed keeps the run failed (yaml_validate.py:148-151,
+                    \* yaml_paths.py:927-930).  FALSE names the deviating design "the status of the last source wins",
+                    \* which MC_YCli must refute.
+
 Tools == {"get", "set", "merge", "diff", "validate", "paths"}
 Modes == {"condense_all", "merge_across", "matrix_merge"}
 Noises == {"default", "quiet", "verbose"}
@@ -80,7 +84,10 @@ ToOutput(s) == [s EXCEPT !.pc = "Output"]
 (* The only reader of e.via - and it does not keep it.                     *)
 LoadStep(s, e) ==
   LET n == s.nload + 1
-      t == [s EXCEPT !.nload = n, !.badat = IF ~e.ok /\ s.badat = 0 THEN n ELSE s.badat]
+      forgets == ~Sticky /\ s.tool \in {"validate", "paths"}
+      t == [s EXCEPT !.nload = n,
+                     !.badat = IF ~e.ok THEN (IF s.badat = 0 \/ forgets THEN n ELSE s.badat)
+                               ELSE (IF forgets THEN 0 ELSE s.badat)]
   IN
   IF e.via \notin {"file", "stdin"} THEN Reject(s)
   ELSE IF s.tool \in {"get", "set"} THEN             \* one document; unreadable => abend
